@@ -315,11 +315,49 @@ fn run_fields(plan: &Value, rec: &mut Rec) {
             if pk.iter().any(|q| q.tag == 8) {
                 extra += 8 << 20; // fixed decompressor state (bzip2: up to ~3.7 MiB for a level-9 block, chosen by one header octet)
             }
+            // an edit inside a compressed payload changes what it expands to: the octets that an independent
+            // decompressor gets out of it are octets "actually present" for everything behind the decompressor
+            // (the property bounds memory by supplied data, not the compression ratio)
+            let mut len = len;
+            if p.tag == 8 && off >= 1 {
+                let expanded = decompressed_len(&body);
+                if expanded > body.len() as u64 {
+                    rec.count("probe:edited-compressed-payload-expands");
+                    extra += 16 * expanded;
+                    len += expanded;
+                }
+            }
             // Argon2 memory parameter within the documented ceiling is the KDF's documented cost, not parsing
             let m = measured(extra, || {
                 parse_everything(&arc, &Sched::Full, 8192);
             });
             judge(rec, plan, vplan, &format!("overwritten-field:{kind}:tag{}", p.tag), &format!("{kind} packet #{} (tag {}) body offset {off}: {width}-octet value {value:#x}", jusize(plan, "pkt"), p.tag), len, extra, &m);
+        }
+    }
+}
+
+/// octets an independent decompressor (flate2 / bzip2 crates) produces from a compressed-data packet body
+/// before its end or first error, capped at 256 MiB
+fn decompressed_len(body: &[u8]) -> u64 {
+    use std::io::Read;
+    let Some((alg, data)) = body.split_first() else { return 0 };
+    let mut r: Box<dyn Read + '_> = match alg {
+        1 => Box::new(flate2::read::DeflateDecoder::new(data)),
+        2 => Box::new(flate2::read::ZlibDecoder::new(data)),
+        3 => Box::new(bzip2::read::BzDecoder::new(data)),
+        _ => return 0,
+    };
+    let mut buf = vec![0u8; 1 << 16];
+    let mut n = 0u64;
+    loop {
+        match r.read(&mut buf) {
+            Ok(0) | Err(_) => return n,
+            Ok(k) => {
+                n += k as u64;
+                if n > 256 << 20 {
+                    return n;
+                }
+            }
         }
     }
 }
